@@ -109,8 +109,9 @@ func genStruct(root string, s *StructSpec, out *strings.Builder) {
 				}
 				var rows []string
 				for _, fld := range st.Fields.List {
-					if len(fld.Names) == 0 {
-						die("struct %s: embedded field unsupported", s.Type)
+					if len(fld.Names) == 0 { // embedded field: its type is its name
+						rows = append(rows, fmt.Sprintf("(%s, %s, %s)", leanStr(typeStr(fld.Type)), leanStr(typeStr(fld.Type)), leanStr("")))
+						continue
 					}
 					tag := "" // the whole json tag, options included (the model's side condition pins it)
 					if fld.Tag != nil {
